@@ -150,11 +150,15 @@ var typedBodies = map[string][2]string{
 	"json-array":     {"application/json", `[1,2,3]`},
 	"form-valid":     {"application/x-www-form-urlencoded", `a=1&b=x%20y`},
 	"form-invalid":   {"application/x-www-form-urlencoded", `a=100%&b=2`},
+	// separators and characters a lenient reader may take for something else
+	"form-semicolon": {"application/x-www-form-urlencoded", `filter=a;b&c=d+e`},
+	"json-spaced":    {"application/json; charset=utf-8", "{ \"n\": 4200000000000000001,\n  \"s\": \"x\" }\n"},
 	"yaml-tabs":      {"application/yaml", "a:\n\t- b\n"},
 	"text":           {"text/plain", "just text"},
 }
 
-var typedBodyOrder = []string{"json-valid", "json-truncated", "json-array", "form-valid", "form-invalid", "yaml-tabs", "text"}
+var typedBodyOrder = []string{"json-valid", "json-truncated", "json-array", "form-valid", "form-invalid", "form-semicolon",
+	"json-spaced", "yaml-tabs", "text"}
 
 func (cs *Case) bodyString() string {
 	if cs.BodyKind != "" {
